@@ -307,7 +307,10 @@ func (ex *Exec) schedLoop(main *Thread) *pathAbort {
 			return &pathAbort{abPathEnd, "deadlock/leak"}
 		}
 		k := 0
-		if len(ts) > 1 && !ex.oneSched {
+		if len(ts) > 1 && !ex.oneSched && (!ex.schedPrefixOn || ex.schedPrefix > 0) {
+			if ex.schedPrefixOn {
+				ex.schedPrefix--
+			}
 			k = ex.choose(len(ts), nil, "sched")
 		}
 		t := ts[k]
